@@ -5,7 +5,7 @@ import json, os
 from . import common
 from .common import hexs, unhex
 
-WORDS = ["a", "ab", "x", "std", "tuples", "DUMMY", "é", "日本", "", "_t0", "_t1"]
+WORDS = ["a", "ab", "x", "std", "tuples", "DUMMY", "é", "日本", "", "_t0", "_t1", "a-b", "-", "my-lib-name-with-dashes", "std-x"]
 
 
 def gen_string(rng, pool):
@@ -36,7 +36,7 @@ def gen_history(rng, nops):
     nh = 0
     for _ in range(nops):
         op = rng.weighted([("as", 24), ("st", 7), ("at", 3), ("am", 8), ("ams", 3), ("gm", 3), ("au", 6),
-                           ("pop", 6), ("mk", 12), ("sw", 11), ("rd", 14), ("mp", 3), ("stat", 2),
+                           ("pop", 6), ("mk", 12), ("sw", 11), ("rd", 14), ("mp", 5), ("stat", 2),
                            ("du", 2), ("cmp", 8), ("tc", 1), ("tca", 3), ("tcs", 1)])
         if op in ("as", "st"):
             v = f"h{nh}"; nh += 1; hs.append(v)
@@ -295,8 +295,26 @@ def check_lines(ctx, lines, label):
 def run(ctx):
     def search():
         return False
+    # translator: table of every `pub const …: PStr` regenerated from the current source
+    rc, out = common.sh(["python3", os.path.join(common.VERIF, "extract", "c17_consts.py")])
+    if rc != 0:
+        ctx.violation("translator extract/c17_consts.py can no longer read the PStr constants: " + out.strip()[-300:],
+                      {"broken": "extract/c17_consts.py", "log": out[-3000:]}, no_input=True)
     res = common.proof_gate(ctx, search)
     rng = ctx.rng
+    # constants probe (implementation side only): every well-known PStr constant reads back the
+    # text of its literal and IS the handle alloc_string returns for that text
+    _, cans, cerr = common.run_exec(common.harness_bin("C17"), [], ["reset", "consts"], timeout=300)
+    ca = cans[1] if len(cans) > 1 else f"<harness died: {cerr[-200:]}>"
+    import re as _re
+    cm = _re.match(r"consts n=(\d+) bad=(.*)$", ca)
+    if not cm:
+        ctx.violation("constants probe did not answer: " + ca[:200], {"broken": "harness op `consts`", "answer": ca}, no_input=True)
+    elif cm.group(2):
+        ctx.violation("samlang_heap::PStr breaks C17: well-known constant(s) " + cm.group(2) +
+                      " do not read back their text / differ from the handle alloc_string returns for the same text",
+                      {"protocol": "heapops", "ops": ["reset", "consts"], "impl": cans, "constants": cm.group(2).split(",")})
+    nconst = int(cm.group(1)) if cm else 0
     nh = ctx.scale(400, 20000)
     nops = ctx.scale(60, 120)
     # corpus first
@@ -336,6 +354,7 @@ def run(ctx):
         "evaluations": done, "distinct_nontrivial": nontrivial,
         "rule": "random API histories (alloc_string/static/temp, module refs, add/pop unmarked, mark, sweep(work), reads, comparisons) over a reused string pool with 14/15/16/17-byte and multi-byte boundary strings; non-trivial = distinct history in which at least one string was actually reclaimed by a sweep (final stat unused>0)",
         "samples": samples, "traces_validated_against_impl": done, "op_lines": total_lines,
+        "pstr_constants_checked": nconst,
         "op_histogram": opcount})
     ctx.assumptions += ["work units < 2^32 (sweep_index + work_unit is computed in usize without overflow check)",
                         "valid UTF-8 strings (&str / String API)"]
